@@ -11,7 +11,12 @@ import (
 	"sync/atomic"
 	"time"
 
+	"crypto/tls"
+	"sync"
+
+	"github.com/IrineSistiana/mosproxy/internal/pool"
 	"github.com/IrineSistiana/mosproxy/internal/upstream"
+	"github.com/miekg/dns"
 	"github.com/IrineSistiana/mosproxy/internal/upstream/transport"
 	"github.com/IrineSistiana/mosproxy/internal/zzverif/vtrace"
 )
@@ -171,12 +176,65 @@ func modeFallback(n int) {
 	onlyEvents = nil
 }
 
+// C20: DoH exchanges whose callers give up while the HTTP round trip is still being prepared / in flight,
+// with other exchanges recycling pooled buffers meanwhile
+func modeDohCancel(n int) {
+	onlyEvents = map[string]bool{}
+	s := newFsrv("https")
+	defer s.close()
+	u, err := upstream.NewUpstream(s.url(), upstream.Opt{TLSConfig: &tls.Config{InsecureSkipVerify: true}})
+	if err != nil {
+		panic(err)
+	}
+	tr.Emit("seg", "name", "dohcancel")
+	var wg sync.WaitGroup
+	for w := 0; w < 16; w++ {
+		wg.Add(1)
+		go func(w int) {
+			defer wg.Done()
+			rng := rand.New(rand.NewSource(seed*77 + int64(w)))
+			for i := 0; i < n/16+1; i++ {
+				q := new(dns.Msg)
+				q.SetQuestion(exName(int(exCtr.Add(1))), dns.TypeA)
+				wire, _ := q.Pack()
+				d := time.Duration(rng.Intn(3000)) * time.Microsecond // often shorter than dial + TLS + request write
+				if rng.Intn(4) == 0 {
+					d = 200 * time.Millisecond
+				}
+				ctx, cancel := context.WithTimeout(context.Background(), d)
+				r, _ := u.ExchangeContext(ctx, wire)
+				cancel()
+				if r != nil {
+					releaseMsg(r)
+				}
+				// churn pooled buffers of the same size classes
+				for k := 0; k < 4; k++ {
+					b := pool.GetBuf(40 + rng.Intn(80))
+					for j := range b {
+						b[j] = 'X'
+					}
+					pool.ReleaseBuf(b)
+				}
+			}
+		}(w)
+	}
+	wg.Wait()
+	time.Sleep(300 * time.Millisecond)
+	u.Close()
+	onlyEvents = nil
+}
+
 func main() {
 	out := flag.String("out", "trace.ndjson", "")
 	mode := flag.String("mode", "pipe", "")
 	n := flag.Int("n", 1000, "")
 	long := flag.Bool("long", false, "")
+	ownPath := flag.String("own", "", "ownership trace (pool / object hooks)")
 	flag.Parse()
+	if *ownPath != "" {
+		own = vtrace.NewOwn(*ownPath, 16)
+		defer own.T.Close()
+	}
 	seed = vtrace.Seed()
 	tr = vtrace.Open(*out)
 	installSink()
@@ -191,6 +249,8 @@ func main() {
 		modeFault(*long)
 	case "life":
 		modeLife(*long)
+	case "dohcancel":
+		modeDohCancel(*n)
 	default:
 		panic("unknown mode " + *mode)
 	}
